@@ -13,7 +13,7 @@ import (
 )
 
 func init() {
-	register("C19", "Decides, for the run methods of canary.{pause,validate,fail}Options, pause.pauseOptions and freeze.freezeOptions: (R1) exactly one API write site is reachable, of the documented verb and kind (Patch of the ExtendedDaemonSet; Status().Update of the replica set for fail), not in a loop, and no other kubectl-eds code writes to the API; (R2) the written object is DeepCopy() of the object read by Get with the user's namespace/name (for fail: of the replica set named by status.canary.replicaSet of that object, same namespace), the read object is never modified, the patch base is MergeFrom(read object), the copy is modified only by creating the annotation map and by annotation writes whose final key/value set on every path to the write is one of the command's documented tables (validate: canary-valid = status.canary.replicaSet of the object read; fail: one append to Status.Conditions of a condition whose constructor puts type Canary-Failed and status True), and the table written is the one of the command word that the cobra constructor binds to the mode field tested on that path; (R3) the write is dominated by the canary precondition (status.canary != nil, plus spec.strategy.canary != nil for pause/fail; status.canary == nil for rolling-update pause and freeze); (R4) every annotation key written is looked up by a function reachable from the controllers' Reconcile, the reader compares with a constant the writer writes (or, for canary-valid, with a name parameter), and the condition type/status written by fail are the constants the controller's failed-reader tests; (R5) reader side of validate: status.activeReplicaSet comes from one decision function, and on every path of it on which IsCanaryDeploymentValid(daemonset annotations, up-to-date replica set name) is true the up-to-date replica set is returned (no pause/fail/time condition can mask a validation); (R6) reader side of unpause: Result.IsUnpaused is stored only from IsCanaryDeploymentUnpaused applied to the parent's annotations, every store IsPaused=true reachable from the canary strategy is under the must-fact IsUnpaused=false of the same Result (an unpaused canary is not re-paused by the per-pod evaluation), IsPaused is otherwise stored only from the persisted reader, and a store IsPaused=false under IsUnpaused=true exists; (R7) refusal table: every path of a canary command's run() that returns an error without reaching the write carries a documented refusal reason — a Get error, spec.strategy.canary == nil / status.canary == nil (as documented for the command), or an equality between the looked-up annotation of a documented key and the very value the command would write for the mode of that path (the annotation is present and already expresses the requested state); a refusal on the mere absence of the annotation (an auto-paused canary has no annotation) is reported. The rolling-update and freeze commands, whose documented behaviour refuses unpause/unfreeze on absence, are not subject to R7; (R8, imported C06.R3) the replica-set sync starts IsFailed from the persisted Canary-Failed condition that `canary fail` appends, never resets it and rewrites the condition from it; (R9) in every function reachable from the ExtendedDaemonSet Reconcile that assigns status.canary, every path that leaves status.canary non-nil (created on the path, or tested non-nil and kept) stores status.canary.replicaSet = Name of the replica set the promotion decision treats as up-to-date — the name `canary validate` writes into the annotation and `canary fail` looks the replica set up by is the current canary, not one cached from an earlier reconcile.", runC19)
+	register("C19", "Decides, for the run methods of canary.{pause,validate,fail}Options, pause.pauseOptions and freeze.freezeOptions: (R1) exactly one API write site is reachable, of the documented verb and kind (Patch of the ExtendedDaemonSet; Status().Update of the replica set for fail), not in a loop, and no other kubectl-eds code writes to the API; (R2) the written object is DeepCopy() of the object read by Get with the user's namespace/name (for fail: of the replica set named by status.canary.replicaSet of that object, same namespace), the read object is never modified, the patch base is MergeFrom(read object), the copy is modified only by creating the annotation map and by annotation writes whose final key/value set on every path to the write is one of the command's documented tables (validate: canary-valid = status.canary.replicaSet of the object read; fail: one append to Status.Conditions of a condition whose constructor puts type Canary-Failed and status True), and the table written is the one of the command word that the cobra constructor binds to the mode field tested on that path; (R3) the write is dominated by the canary precondition (status.canary != nil, plus spec.strategy.canary != nil for pause/fail; status.canary == nil for rolling-update pause and freeze); (R4) every annotation key written is looked up by a function reachable from the controllers' Reconcile, the reader compares with a constant the writer writes (or, for canary-valid, with a name parameter), and the condition type/status written by fail are the constants the controller's failed-reader tests; (R5) reader side of validate: status.activeReplicaSet comes from one decision function, and on every path of it on which IsCanaryDeploymentValid(daemonset annotations, up-to-date replica set name) is true the up-to-date replica set is returned (no pause/fail/time condition can mask a validation); (R6) reader side of unpause: Result.IsUnpaused is stored only from IsCanaryDeploymentUnpaused applied to the parent's annotations, every store IsPaused=true reachable from the canary strategy is under the must-fact IsUnpaused=false of the same Result (an unpaused canary is not re-paused by the per-pod evaluation), IsPaused is otherwise stored only from the persisted reader, and a store IsPaused=false under IsUnpaused=true exists; (R7) refusal table: every path of a canary command's run() that returns an error without reaching the write carries a documented refusal reason — a Get error, spec.strategy.canary == nil / status.canary == nil (as documented for the command), or an equality between the looked-up annotation of a documented key and the very value the command would write for the mode of that path (the annotation is present and already expresses the requested state); a refusal on the mere absence of the annotation (an auto-paused canary has no annotation) is reported. The rolling-update and freeze commands, whose documented behaviour refuses unpause/unfreeze on absence, are not subject to R7; (R8, imported C06.R3) the replica-set sync starts IsFailed from the persisted Canary-Failed condition that `canary fail` appends, never resets it and rewrites the condition from it; (R9) in every function reachable from the ExtendedDaemonSet Reconcile that assigns status.canary, every path that leaves status.canary non-nil (created on the path, or tested non-nil and kept) stores status.canary.replicaSet = Name of the replica set the promotion decision treats as up-to-date — the name `canary validate` writes into the annotation and `canary fail` looks the replica set up by is the current canary, not one cached from an earlier reconcile. (R10) the wiring that decides which object a command targets: every cobra handler that reaches a run method calls run only on paths that know complete(cmd, args) == nil for the one method that stores the name and namespace fields used as the Get key (called with the handler's own parameters), returns run's own result, and otherwise returns a value known to be a non-nil error; on every successful path of that method the name is last stored from args[0] unless the argument list is known to be empty, the namespace is the --namespace flag when the path knows it non-empty and the kubeconfig namespace when it knows it empty, and no call is known to have failed; complete and every other gate (validate) return an error only on a path that knows a call to have failed or the argument list to be empty; the constructor registers the options' ConfigFlags on the command's flag set on every path, and the command is added, on every path, to a command that is in turn added up to the root command built by a main package. Paths on which the lookup of the registered string flag fails are infeasible under the flag-registration clause and are skipped.", runC19)
 }
 
 type c19Cmd struct {
